@@ -63,6 +63,10 @@ def fullIdx (rank : Nat) (axes : List Nat) (kept : List Nat) (pos : List (Nat ×
       else kept.headD 0 :: go (j+1) f kept.tail
   go 0 rank kept
 
+/-- every listed axis is ≥ 2 and at least one is not the last axis, on a tensor of rank ≥ 4 -/
+def innerAxesOnly (r : Nat) (ax : List Nat) : Bool :=
+  decide (r ≥ 4) && ax.all (fun a => decide (2 ≤ a)) && ax.any (fun a => decide (a + 1 < r))
+
 /-- `t.Max(axes...)` / `t.Min(axes...)`: no axes = all axes (scalar result); the reduced axes are
 removed; an axis ≥ rank (error or index panic depending on the rank) and a repeated axis are not modelled -/
 def gReduce [Inhabited α] (better : α → α → Bool) (t : Tensor α) (axes : List Int) : Res (Tensor α) :=
@@ -72,6 +76,10 @@ def gReduce [Inhabited α] (better : α → α → Bool) (t : Tensor α) (axes :
   else
     let ax := if axes.isEmpty then List.range r else axes.map Int.toNat
     if ax.eraseDups.length ≠ ax.length then .error .unmodelled
+    -- gorgonia sorts the axes and reduces them one after the other; when the smallest listed axis is an
+    -- inner one (neither one of the first two nor the last) of a tensor of rank ≥ 4, gorgonia v0.9.24
+    -- returns values of another lane or panics: not modelled
+    else if innerAxesOnly r ax then .error .unmodelled
     else
       let keptShape := (t.shape.zipIdx.filter fun (_, j) => !ax.contains j).map (·.1)
       .ok (ofFn keptShape fun idx =>
